@@ -93,6 +93,18 @@ class Opaque:
     def __repr__(self): return f'<opaque {self.name}>'
 
 
+class TypeTag:
+    """result of type(x): symbolic scalars are never numpy arrays (the scalar path is analysed)"""
+    def __init__(self, name): self.name = name
+
+    def __eq__(self, other):
+        if isinstance(other, TypeTag): return other.name == self.name
+        if isinstance(other, Builtin): return other.name.split('.')[-1] == self.name
+        return False
+
+    def __hash__(self): return hash(self.name)
+
+
 class Ref:
     """address-of a local scalar: &x"""
     def __init__(self, frame, name): self.frame = frame; self.name = name
@@ -429,7 +441,7 @@ class Interp:
             if r[0] == 'external':
                 return self.external(r[1], r[2])
         if n in ('range', 'len', 'int', 'float', 'complex', 'abs', 'max', 'min', 'tuple', 'list', 'dict', 'bool',
-                 'isinstance', 'sum', 'enumerate', 'zip', 'print', 'str', 'round', 'type', 'pow'):
+                 'isinstance', 'sum', 'enumerate', 'zip', 'print', 'str', 'round', 'type', 'pow', 'any', 'all', 'set'):
             return Builtin(n)
         if n in ('sin', 'cos', 'tan', 'exp', 'sqrt', 'cbrt', 'log', 'fabs', 'pi', 'M_PI', 'NAN', 'INFINITY', 'isnan',
                  'isinf', 'tgamma', 'floor', 'pow', 'creal', 'cimag', 'cabs', 'csqrt', 'cexp', 'fmin', 'fmax', 'NULL',
@@ -650,6 +662,9 @@ class Interp:
         return result
 
     def compare(self, op, a, b, e, fr):
+        if isinstance(a, TypeTag) or isinstance(b, TypeTag):
+            if isinstance(op, (ast.Is, ast.Eq)): return a == b
+            if isinstance(op, (ast.IsNot, ast.NotEq)): return not (a == b)
         if isinstance(op, ast.Is): return a is b or (a is None and b is None)
         if isinstance(op, ast.IsNot): return not (a is b or (a is None and b is None))
         if isinstance(op, ast.In): return a in b
@@ -842,8 +857,14 @@ class Interp:
             return Opaque(nm)
         if nm == 'isinstance':
             return Opaque('isinstance')
+        if nm == 'type':
+            a = args[0]
+            return TypeTag('scalar' if isinstance(a, (Node, int, Fraction)) else type(a).__name__)
         if nm == 'print':
             return None
+        if nm in ('any', 'all'):
+            vals = [self.truth(v, e, fr) for v in args[0]]
+            return any(vals) if nm == 'any' else all(vals)
         if nm == 'enumerate':
             return list(enumerate(args[0]))
         if nm == 'zip':
@@ -853,6 +874,9 @@ class Interp:
             for v in args[0]:
                 out = self.binop(ast.Add(), out, v)
             return out
+        if nm == 'finfo':
+            return Obj(name='finfo', attrs={'eps': X.atom('float_eps', 'pos'), 'max': X.atom('float_max', 'pos'),
+                                            'min': X.atom('float_min_neg', 'real'), 'tiny': X.atom('float_tiny', 'pos')})
         if nm == 'sizeof':
             return Opaque('sizeof')
         if nm == 'floor':
